@@ -159,4 +159,15 @@ func init() {
 		Assumes: []string{aEnv, "assumed, not decided (environment): go list / packages.Load deliver the same package, minus the withheld file, whatever same-package bytes the output path holds"}})
 	reg(&HarnessSpec{Prop: "C12", Name: "C15Run", Replay: "e2e-regen", What: "the only write is one whole-file os.WriteFile of the formatted bytes after every stage succeeded (see C15Run)", Bounds: "as C15Run", Assumes: []string{aEnv}})
 	reg(&HarnessSpec{Prop: "C12", Name: "C18Generate", Replay: "e2e-regen", What: "Generate's write discipline (see C18Generate)", Bounds: "as C18Generate", Assumes: []string{aEnv}})
+
+	// ---------------------------------------------------------------- C03 / C11 layout kernel
+	for _, pr := range []string{"C03", "C11"} {
+		reg(&HarnessSpec{Prop: pr, Name: "C03MarkerLayout", Replay: "e2e-layout",
+			What:    "real Parser.GenerateBaseCode up to its call of printer.Fprint (RemoveMatchComments, the ast.Inspect search for the interface braces - go/ast's Inspect/Walk interpreted from their own SSA -, util.InsertComment in the order the real code calls it) on a syntax tree built by the harness whose brace and comment POSITIONS are symbolic integers: one or two converter interfaces, bodies of any length >= 1 (with or without a method), any realisable gap between them, optional comment groups (1-2 lines) before, inside, between and after, either processing order of the entries. Post-condition (what go/printer's sequential comment cursor needs): every planted marker is a comment group of its own, exactly at its interface's opening and closing brace; group positions strictly increase; no existing comment lost, duplicated or reordered. Counterexamples are rendered byte-exactly as a setup file and run through the built binary; on the unchanged tree solver-chosen layouts of assertion-clean paths are run through the binary as validation of the assumption 'invariant => the printer and the regexp cut work'",
+			Bounds:  "positions in [1,400]; <= 2 interfaces; <= 4 comment groups; the family is restricted to realisable files (room for the header and the 'type X interface' text)",
+			Assumes: []string{"go/printer and the marker-to-marker regexp cut are NOT encoded: acceptance is established up to the stated layout invariant (validated end to end on solver-chosen layouts, which is validation of an assumption, not a verdict)", "util.ToAstNode is stubbed to return the harness-built declaration; printer.Fprint is a stub that stops the run"}})
+	}
+	reg(&HarnessSpec{Prop: "C03", Name: "C14BadNotation", What: whatBad + " - for C03: every WELL-FORMED entry of the menu is accepted with one function per method", Bounds: "skeleton bad", Assumes: []string{aT, aSlots}})
+	reg(&HarnessSpec{Prop: "C03", Name: "C08CreateFunction", What: "every documented-legal operand shape of the 120-signature catalogue is accepted (rejected-iff-documented-illegal)", Bounds: "skeleton sig", Assumes: []string{aT}})
+	reg(&HarnessSpec{Prop: "C03", Name: "G:basic", What: "the tool accepts every corpus case (a rejected or non-compiling corpus case is a violation by itself)", Bounds: "corpus", Assumes: []string{aG}})
 }
